@@ -149,6 +149,10 @@ def check_variant(case, ctx):
     return None
 
 
+# natural joins and the record* set operations read the headers at construction (C02 allows exactly that)
+HEADER_AT_CONSTRUCTION = ("join_natural", "recordcomplement", "recorddiff0", "recorddiff1", "unjoin_nokey_left", "unjoin_nokey_right")
+
+
 # ---- histories -------------------------------------------------------------------------------------------
 HNAMES = NAMES + catalog.names("hashcache")
 
@@ -176,7 +180,10 @@ def _history_case(draw, tier, names):
     for _ in range(nsteps):
         kind = draw(st.sampled_from(["full", "full", "edit", "edit", "partial", "failpass"]))
         if kind == "edit":
-            steps.append(["edit", draw(st.integers(0, e.n - 1)), draw(st.sampled_from(["append", "delete", "replace"])),
+            # row edits, and edits of the column layout (two columns swapped / a column inserted, header and cells, in
+            # place): whatever a view remembers about field positions is stale afterwards
+            steps.append(["edit", draw(st.integers(0, e.n - 1)),
+                          draw(st.sampled_from(["append", "delete", "replace", "append", "delete", "replace", "swapcols", "insertcol"])),
                           draw(st.integers(0, 5)), draw(row)])
         elif kind == "partial":
             steps.append(["partial", draw(st.integers(1, 3))])
@@ -231,6 +238,25 @@ def check_history(case, ctx):
                 del data[1 + pos % (len(data) - 1)]
             elif how == "replace" and len(data) > 1:
                 data[1 + pos % (len(data) - 1)] = list(newrow)
+            elif how in ("swapcols", "insertcol") and e.name in HEADER_AT_CONSTRUCTION:
+                pass   # these consult the headers when the view is built (documented); a later layout change is not theirs to see
+            elif how == "swapcols":
+                a, b = pos % 4, (pos // 2 + 1) % 4
+                # (every row is REPLACED by a new list, like the row edits above: a memory cache legitimately holds on to the
+                #  row objects it was given, and the statement speaks of editing the source list, not of mutating rows)
+                if a != b and all(len(r) > max(a, b) for r in data):
+                    for i, r in enumerate(data):
+                        r2 = list(r)
+                        r2[a], r2[b] = r2[b], r2[a]
+                        data[i] = r2
+                    ctx.label("layout-edit")
+            elif how == "insertcol":
+                at = pos % 3
+                if all(len(r) >= at for r in data):
+                    name = "zz%d" % sum(1 for f in data[0] if str(f).startswith("zz"))
+                    for i, r in enumerate(data):
+                        data[i] = list(r[:at]) + [name if i == 0 else newrow[i % len(newrow)]] + list(r[at:])
+                    ctx.label("layout-edit")
             edited = True
             seen_edit = True
             continue
@@ -251,6 +277,11 @@ def check_history(case, ctx):
             exp_now = fresh()
         except Exception:
             ctx.label("rejected-after-edit")
+            return None
+        if hash_cached and (P is not None or edited):
+            # a cached lookup of the build side next to a re-read probe side: neither a replay nor the sources' current
+            # contents, and nothing the statement (sort-backed operators) speaks about
+            ctx.label("hash-cache-true-unchecked")
             return None
         try:
             it = iter(view)
@@ -276,9 +307,6 @@ def check_history(case, ctx):
         #  served from its cache - and is judged like any other full pass)
         pulls = [s.data_pulls for s in srcs]
         j = len(got)
-        if hash_cached and (P is not None or edited):
-            ctx.label("hash-cache-true-unchecked")
-            return None
         if not cache:
             if got != exp_now[:j] or (step[0] != "partial" and got != exp_now):
                 return Fail("%s/nocache-stale" % e.name, "cache=False %s pass gave %r, sources now give %r (history %r)" % (step[0], got, exp_now, case["steps"]))
